@@ -14,7 +14,7 @@ PROP = {
     "tool_files": ["tool_commitsites.go"],
     "streams": [
         {"name": "exec", "driver": "drv_exec",
-         "quick": {"n": 250}, "thorough": {"n": 4000, "seeds": 3}},
+         "quick": {"n": 1500}, "thorough": {"n": 20000, "seeds": 3}},
     ],
     "exhaustive": False,
     "technique": "Lean 4 proof over a protocol acceptor of the executors + fact extraction of all commit / register-write "
